@@ -7,6 +7,7 @@ import KG.Spec.RemoteLimiter
 lists whose schemas are all valid and of one type `K`. `step_inv` shows that every operation preserves it, never
 panics, and produces an observation the judge accepts.
 -/
+set_option linter.unusedSimpArgs false
 namespace KG.Lemmas.RemoteLimiter
 open KG.Model.RemoteLimiter KG.Spec.RemoteLimiter KG.Gen.C09
 
@@ -924,5 +925,674 @@ theorem judgePost_ok {K : Kind} {cfg : Cfg} {st : State} {m : Mon} (hi : Inv K c
           rw [observe_unavail, hg]; simpa using hu
         have hleb := GInv_leb r6 r5 r4 hK hob
         cases ch <;> simp [hg, r7, VS_guess h2, hleb, hcache, h3]
+
+/-! ## every operation preserves the invariant -/
+
+/-- what the theorems require of an operation: schemas are valid and of the one type `K`; the meter's rate is a
+    fraction with a positive denominator. Everything else (answers, replies, heartbeats) is arbitrary. -/
+def OpOK (K : Kind) : Op → Prop
+  | .schema s => VS K s
+  | .meter m => 0 < m.rateDen
+  | _ => True
+
+theorem localSync_VS {K : Kind} {l : Local} {old s : Schema} (ho : VS K old) (hs : VS K s)
+    (hc : l.config = old) (hf : l.fc = some (limOf old)) :
+    localSync l s = .ok ({ config := s, fc := some (limOf s) }, decide (s ≠ old) && !enableGlobal s) := by
+  obtain ⟨cfg0, fc0⟩ := l
+  simp only at hc hf
+  subst hc hf
+  unfold localSync
+  by_cases heq : s = cfg0
+  · subst heq; simp
+  · simp only [heq, if_false, ne_eq, not_false_eq_true, decide_true, Bool.true_and]
+    cases ho with
+    | mi st0 l0 g0 a0 a1 a2 =>
+      cases hs with
+      | mi st l g h0 h1 h2 =>
+        simp [limOf, Lim.kind, guessType, toU32_id h0 (by omega : l ≤ maxInt32)]
+    | tb st0 q0 b0 gq0 gb0 a0 a1 a2 a3 a4 a5 =>
+      cases hs with
+      | tb st q b gq gb h0 h1 h2 h3 h4 h5 =>
+        simp [limOf, Lim.kind, guessType, toU32_id (by omega : 0 ≤ q) (by omega : q ≤ maxInt32),
+          toU32_id (by omega : 0 ≤ b) (by omega : b ≤ maxInt32)]
+
+theorem gfcOf_cache {st st' : State} (h : st'.cache = st.cache) : gfcOf st' = gfcOf st := by
+  simp only [gfcOf, h]
+
+theorem CInv_congr {K : Kind} {c : Option Cache} {m m' : Mon} (h : CInv K c m) (e1 : m'.schema = m.schema)
+    (e2 : m'.synced = m.synced) (e3 : m'.gs = m.gs) (e4 : m'.ob = m.ob) : CInv K c m' := by
+  unfold CInv at *
+  rw [e1, e2, e3, e4]
+  exact h
+
+/-- operations that leave the cache alone and do not resize the remote limiter from the configuration -/
+theorem inv_of_frame {K : Kind} {cfg : Cfg} {st st' : State} {m m' : Mon} (hi : Inv K cfg st m)
+    (hc : st'.cache = st.cache) (e_schema : m'.schema = m.schema) (e_synced : m'.synced = m.synced)
+    (e_gs : m'.gs = m.gs) (e_ob : m'.ob = if (observe cfg st').unavail then m.ob.sup m.gs else m.gs)
+    (e_prev : m'.prev = observe cfg st') (e_meter : m'.meter = st'.meter) (hmok : 0 < st'.meter.rateDen)
+    (e_sh : m'.shards = st'.shardCount) (e_hb : HBInv st'.hb m'.hist) : Inv K cfg st' m' := by
+  have hun : (observe cfg st').unavail = (observe cfg st).unavail := by
+    rw [observe_unavail, observe_unavail, gfcOf_cache hc]
+  have hob : m'.ob = m.ob := by
+    rw [e_ob, hun]
+    cases hu : (observe cfg st).unavail with
+    | true => simp only [if_true]; exact sup_eq_left hi.gsob
+    | false => simp only [Bool.false_eq_true, if_false]; exact (hi.obgs hu).symm
+  refine ⟨e_meter, hmok, e_sh, e_hb, e_prev, by rw [e_gs]; exact hi.gsOK, by rw [e_gs, hob]; exact hi.gsob, ?_, ?_⟩
+  · intro hu
+    rw [hob, e_gs]
+    exact hi.obgs (by rw [← hun]; exact hu)
+  · rw [hc]
+    exact CInv_congr hi.cache e_schema e_synced e_gs hob
+
+/-- the conclusion of every per-operation lemma -/
+def StepOK (K : Kind) (cfg : Cfg) (st : State) (m : Mon) (op : Op) : Prop :=
+  ∃ st', step st op = .ok st' ∧ Inv K cfg st' (m.next op (observe cfg st')) ∧
+    judgeTrans m op (observe cfg st') = []
+
+theorem step_shards {K : Kind} {cfg : Cfg} {st : State} {m : Mon} (hi : Inv K cfg st m) (n : Nat) :
+    StepOK K cfg st m (.shards n) := by
+  refine ⟨{ st with shardCount := n }, rfl, ?_, rfl⟩
+  apply inv_of_frame hi (st' := { st with shardCount := n })
+  · rfl
+  · simp [Mon.next]
+  · simp [Mon.next, effective]
+  · simp [Mon.next, effective]
+  · simp [Mon.next, effective]
+  · rfl
+  · simp [Mon.next]; exact hi.meter
+  · exact hi.meterOK
+  · simp [Mon.next]
+  · simp [Mon.next]; exact hi.hb
+
+theorem step_meter {K : Kind} {cfg : Cfg} {st : State} {m : Mon} (hi : Inv K cfg st m) (x : Meter)
+    (hx : 0 < x.rateDen) : StepOK K cfg st m (.meter x) := by
+  refine ⟨{ st with meter := x }, rfl, ?_, rfl⟩
+  apply inv_of_frame hi (st' := { st with meter := x })
+  · rfl
+  · simp [Mon.next]
+  · simp [Mon.next, effective]
+  · simp [Mon.next, effective]
+  · simp [Mon.next, effective]
+  · rfl
+  · simp [Mon.next]
+  · exact hx
+  · simp [Mon.next]; exact hi.shards
+  · simp [Mon.next]; exact hi.hb
+
+theorem step_hb {K : Kind} {cfg : Cfg} {st : State} {m : Mon} (hi : Inv K cfg st m) (ok : Bool) (now : Int)
+    (other : Bool) : StepOK K cfg st m (.hb ok now other) := by
+  cases other with
+  | true =>
+    refine ⟨st, rfl, ?_, rfl⟩
+    apply inv_of_frame hi (st' := st)
+    · rfl
+    · simp [Mon.next]
+    · simp [Mon.next, effective]
+    · simp [Mon.next, effective]
+    · simp [Mon.next, effective]
+    · rfl
+    · simp [Mon.next]; exact hi.meter
+    · exact hi.meterOK
+    · simp [Mon.next]; exact hi.shards
+    · simp [Mon.next]; exact hi.hb
+  | false =>
+    refine ⟨{ st with hb := some (hbStep (st.hb.getD {}) ok now) }, rfl, ?_, rfl⟩
+    apply inv_of_frame hi (st' := { st with hb := some (hbStep (st.hb.getD {}) ok now) })
+    · rfl
+    · simp [Mon.next]
+    · simp [Mon.next, effective]
+    · simp [Mon.next, effective]
+    · simp [Mon.next, effective]
+    · rfl
+    · simp [Mon.next]; exact hi.meter
+    · exact hi.meterOK
+    · simp [Mon.next]; exact hi.shards
+    · simp [Mon.next]; exact hbStep_inv hi.hb ok now
+
+theorem observe_unavail_noremote {cfg : Cfg} {st : State} {c : Cache} (hc : st.cache = some c) (hr : c.remote = none) :
+    (observe cfg st).unavail = false := by
+  rw [observe_unavail]; simp [gfcOf, hc, hr]
+
+theorem step_schema {K : Kind} {cfg : Cfg} {st : State} {m : Mon} (hi : Inv K cfg st m) (s : Schema) (hs : VS K s) :
+    StepOK K cfg st m (.schema s) := by
+  have hc := hi.cache
+  unfold CInv at hc
+  cases hcache : st.cache with
+  | none =>
+    cases hsch : m.schema with
+    | some s0 => rw [hcache, hsch] at hc; exact hc.elim
+    | none =>
+      rw [hcache, hsch] at hc
+      refine ⟨{ st with cache := some { loc := { config := s, fc := some (limOf s) }, remote := none } }, ?_, ?_, rfl⟩
+      · simp [step, hcache, VS_newLim hs]
+      · have hun := observe_unavail_noremote (cfg := cfg)
+          (st := { st with cache := some { loc := { config := s, fc := some (limOf s) }, remote := none } }) rfl rfl
+        refine ⟨?_, hi.meterOK, ?_, ?_, rfl, ?_, ?_, ?_, ?_⟩
+        · simp [Mon.next]; exact hi.meter
+        · simp [Mon.next]; exact hi.shards
+        · simp [Mon.next]; exact hi.hb
+        · simp [Mon.next, effective]; exact hi.gsOK
+        · simp [Mon.next, effective, hun]; exact BLe.refl _
+        · intro _; simp [Mon.next, effective, hun]
+        · simp [CInv, Mon.next, hsch, hs, hc]
+  | some c =>
+    cases hsch : m.schema with
+    | none => rw [hcache, hsch] at hc; exact hc.elim
+    | some old =>
+      rw [hcache, hsch] at hc
+      obtain ⟨h1, h2, h3, h4, h5⟩ := hc
+      have hls := localSync_VS h2 hs h1 h3
+      by_cases hstop : (decide (s ≠ old) && !enableGlobal s) = true
+      · -- the remote wrapper is stopped
+        refine ⟨{ st with cache := some { loc := { config := s, fc := some (limOf s) }, remote := none } }, ?_, ?_, rfl⟩
+        · simp only [step, hcache, hls, hstop]; rfl
+        · have hun := observe_unavail_noremote (cfg := cfg)
+            (st := { st with cache := some { loc := { config := s, fc := some (limOf s) }, remote := none } }) rfl rfl
+          simp only [Bool.and_eq_true, decide_eq_true_eq, Bool.not_eq_true'] at hstop
+          refine ⟨?_, hi.meterOK, ?_, ?_, rfl, ?_, ?_, ?_, ?_⟩
+          · simp [Mon.next]; exact hi.meter
+          · simp [Mon.next]; exact hi.shards
+          · simp [Mon.next]; exact hi.hb
+          · simp [Mon.next, effective]; exact hi.gsOK
+          · simp [Mon.next, effective, hun]; exact BLe.refl _
+          · intro _; simp [Mon.next, effective, hun]
+          · simp [CInv, Mon.next, hsch, hs, hstop.1, hstop.2, VS_guess hs, VS_guess h2]
+      · -- nothing else changes
+        have hstop' : (decide (s ≠ old) && !enableGlobal s) = false := by simpa using hstop
+        refine ⟨{ st with cache := some { loc := { config := s, fc := some (limOf s) }, remote := c.remote } }, ?_, ?_, rfl⟩
+        · simp only [step, hcache, hls, hstop']; rfl
+        · have hg : gfcOf { st with cache := some { loc := { config := s, fc := some (limOf s) }, remote := c.remote } }
+              = gfcOf st := by simp [gfcOf, hcache]
+          have hun : (observe cfg { st with cache := some { loc := { config := s, fc := some (limOf s) }, remote := c.remote } }).unavail
+              = (observe cfg st).unavail := by rw [observe_unavail, observe_unavail, hg]
+          have hob : (if (observe cfg st).unavail = true then m.ob.sup m.gs else m.gs) = m.ob := by
+            cases hu : (observe cfg st).unavail with
+            | true => simp only [if_true]; exact sup_eq_left hi.gsob
+            | false => simp only [Bool.false_eq_true, if_false]; exact (hi.obgs hu).symm
+          have hsy : (if s ≠ old ∧ guessType s = guessType old ∧ enableGlobal s = false then false else m.synced) = m.synced := by
+            simp only [Bool.and_eq_false_iff, decide_eq_false_iff_not, Bool.not_eq_false'] at hstop'
+            rcases hstop' with h | h
+            · simp [h]
+            · simp [h]
+          refine ⟨?_, hi.meterOK, ?_, ?_, rfl, ?_, ?_, ?_, ?_⟩
+          · simp [Mon.next]; exact hi.meter
+          · simp [Mon.next]; exact hi.shards
+          · simp [Mon.next]; exact hi.hb
+          · simp [Mon.next, effective]; exact hi.gsOK
+          · simp only [Mon.next, effective, Bool.false_eq_true, if_false, hun, hob]; exact hi.gsob
+          · intro hu
+            simp only [Mon.next, effective, Bool.false_eq_true, if_false, hun, hob]
+            rw [hun] at hu
+            exact hi.obgs hu
+          · simp only [CInv, Mon.next, hsch, effective, Bool.false_eq_true, if_false, hun, hob, hsy]
+            exact ⟨trivial, hs, trivial, h4, h5⟩
+
+/-- an effective sync of the remote limiter (reconcile of a global-count schema, or an answer of the schema's type) -/
+theorem inv_of_sync {K : Kind} {cfg : Cfg} {st : State} {m : Mon} {c : Cache} {s : Schema} (hi : Inv K cfg st m)
+    (hcache : st.cache = some c) (hsch : m.schema = some s) (i : Item) (hT : itemType i = K) :
+    ∃ r' g', remoteSync (c.remote.getD {}) c.loc.config i = .ok r' ∧ r'.fc = some g' ∧
+      r'.appliedConfig = some (boundByGlobalLimit s i) ∧ GInv g' (boundByGlobalLimit s i) (obAfter m.ob (globalOf s) g'.unavail) ∧
+      ∀ m' : Mon, m'.schema = some s → m'.synced = true → m'.gs = globalOf s →
+        m'.ob = (if (observe cfg { st with cache := some { c with remote := some r' } }).unavail
+                  then m.ob.sup (globalOf s) else globalOf s) →
+        m'.prev = observe cfg { st with cache := some { c with remote := some r' } } →
+        m'.meter = st.meter → m'.shards = st.shardCount → m'.hist = m.hist →
+        Inv K cfg { st with cache := some { c with remote := some r' } } m' := by
+  have hc := hi.cache
+  unfold CInv at hc
+  rw [hcache, hsch] at hc
+  obtain ⟨h1, h2, h3, h4, h5⟩ := hc
+  have hr : c.remote.getD {} = {} ∨ RInv K (c.remote.getD {}) m.gs m.ob := by
+    cases hrm : c.remote with
+    | none => exact Or.inl rfl
+    | some r => exact Or.inr (h5 r hrm)
+  obtain ⟨r', g', e1, e2, e3, e4⟩ := remoteSync_inv (s := s) (i := i) h2 hT hr
+  rw [h1]
+  obtain ⟨i0, ap0, g0, q1, q2, q3, q4, q5, q6, q7⟩ := e4
+  have eg : g0 = g' := by rw [e2] at q3; exact (Option.some.inj q3).symm
+  have ea : ap0 = boundByGlobalLimit s i := by rw [e3] at q2; exact (Option.some.inj q2).symm
+  subst eg ea
+  refine ⟨r', g0, e1, e2, e3, q6, ?_⟩
+  intro m' m1 m2 m3 m4 m5 m6 m7 m8
+  have hg : gfcOf { st with cache := some { c with remote := some r' } } = some g0 := by simp [gfcOf, e2]
+  have hun : (observe cfg { st with cache := some { c with remote := some r' } }).unavail = g0.unavail := by
+    rw [observe_unavail, hg]; rfl
+  rw [hun] at m4
+  have hob : m'.ob = obAfter m.ob (globalOf s) g0.unavail := by rw [m4]; rfl
+  refine ⟨m6, hi.meterOK, m7, by rw [m8]; exact hi.hb, m5, by rw [m3]; exact VS_globalOK h2, ?_, ?_, ?_⟩
+  · rw [m3, hob]
+    cases g0.unavail with
+    | true => exact BLe.sup_right _ _
+    | false => exact BLe.refl _
+  · intro hu
+    rw [hun] at hu
+    rw [hob, m3, hu]; rfl
+  · simp only [CInv, m1]
+    refine ⟨h1, h2, h3, by rw [m2]; rfl, ?_⟩
+    intro r hr'
+    have : r = r' := by simpa using hr'.symm
+    subst this
+    rw [m3, hob]
+    exact ⟨i0, _, g0, q1, q2, q3, q4, q5, q6, q7⟩
+
+def GFC.wkind : GFC → Nat
+  | .empty _ => 1
+  | .miw _ => 2
+  | .tbw _ => 3
+
+theorem observe_wkind (cfg : Cfg) (st : State) : (observe cfg st).wkind = ((gfcOf st).map GFC.wkind).getD 0 := by
+  simp only [observe, gfcOf]
+  cases h : (st.cache.bind fun c => c.remote.bind (·.fc)) with
+  | none => rfl
+  | some g => cases g <;> rfl
+
+/-- an operation that changes nothing at all -/
+theorem step_noop {K : Kind} {cfg : Cfg} {st : State} {m : Mon} (hi : Inv K cfg st m) (op : Op)
+    (hstep : step st op = .ok st) (heff : effective m op = false)
+    (e_schema : (m.next op (observe cfg st)).schema = m.schema)
+    (e_rest : (m.next op (observe cfg st)).meter = m.meter ∧ (m.next op (observe cfg st)).shards = m.shards ∧
+      (m.next op (observe cfg st)).hist = m.hist ∧
+      (m.next op (observe cfg st)).synced = (m.synced || effective m op))
+    (hj : judgeTrans m op (observe cfg st) = []) : StepOK K cfg st m op := by
+  refine ⟨st, hstep, ?_, hj⟩
+  apply inv_of_frame hi (st' := st)
+  · rfl
+  · exact e_schema
+  · rw [e_rest.2.2.2, heff]; simp
+  · simp [Mon.next, heff]
+  · simp [Mon.next, heff]
+  · rfl
+  · rw [e_rest.1]; exact hi.meter
+  · exact hi.meterOK
+  · rw [e_rest.2.1]; exact hi.shards
+  · rw [e_rest.2.2.1]; exact hi.hb
+
+theorem VS_globalItem {K : Kind} {s : Schema} (h : VS K s) :
+    itemType { strategy := s.strategy, mi := s.gmi, tb := s.gtb } = K := by
+  cases h <;> rfl
+
+theorem step_reconcile {K : Kind} {cfg : Cfg} {st : State} {m : Mon} (hi : Inv K cfg st m) :
+    StepOK K cfg st m .reconcileCount := by
+  have hc := hi.cache
+  unfold CInv at hc
+  cases hcache : st.cache with
+  | none =>
+    cases hsch : m.schema with
+    | some s0 => rw [hcache, hsch] at hc; exact hc.elim
+    | none =>
+      exact step_noop hi _ (by simp [step, hcache]) (by simp [effective, hsch]) rfl ⟨rfl, rfl, rfl, rfl⟩ rfl
+  | some c =>
+    cases hsch : m.schema with
+    | none => rw [hcache, hsch] at hc; exact hc.elim
+    | some s =>
+      have hc' := hc
+      rw [hcache, hsch] at hc'
+      obtain ⟨h1, h2, h3, h4, h5⟩ := hc'
+      by_cases hcount : s.strategy = .count
+      · by_cases hen : enableGlobal s = true
+        · -- effective
+          have heff : effective m .reconcileCount = true := by simp [effective, hsch, hcount, hen]
+          obtain ⟨r', g', e1, e2, e3, e4, e5⟩ := inv_of_sync hi hcache hsch
+            { strategy := s.strategy, mi := s.gmi, tb := s.gtb } (VS_globalItem h2)
+          refine ⟨{ st with cache := some { c with remote := some r' } }, ?_, ?_, rfl⟩
+          · simp only [step, hcache, h1, hcount, ne_eq, not_true_eq_false, if_false, hen, Bool.not_true,
+              Bool.false_eq_true, cacheRemoteSync, bind, Except.bind]
+            rw [h1, hcount] at e1
+            rw [e1]; rfl
+          · apply e5
+            · simp [Mon.next, hsch]
+            · simp [Mon.next, heff]
+            · simp [Mon.next, heff, hsch]
+            · simp [Mon.next, heff, hsch]
+            · rfl
+            · simp [Mon.next]; exact hi.meter
+            · simp [Mon.next]; exact hi.shards
+            · simp [Mon.next]
+        · have hen' : enableGlobal s = false := by simpa using hen
+          exact step_noop hi _ (by simp [step, hcache, h1, hcount, hen']) (by simp [effective, hsch, hen'])
+            rfl ⟨rfl, rfl, rfl, rfl⟩ rfl
+      · exact step_noop hi _ (by simp [step, hcache, h1, hcount]) (by simp [effective, hsch, hcount])
+          rfl ⟨rfl, rfl, rfl, rfl⟩ rfl
+
+theorem step_answer {K : Kind} {cfg : Cfg} {st : State} {m : Mon} (hi : Inv K cfg st m) (named : Bool) (item : Item) :
+    StepOK K cfg st m (.answer named item) := by
+  have hc := hi.cache
+  unfold CInv at hc
+  cases named with
+  | false =>
+    refine step_noop hi _ ?_ rfl rfl ⟨rfl, rfl, rfl, rfl⟩ rfl
+    simp only [step]; cases st.cache <;> rfl
+  | true =>
+  cases hcache : st.cache with
+  | none =>
+    cases hsch : m.schema with
+    | some s0 => rw [hcache, hsch] at hc; exact hc.elim
+    | none =>
+      have heff : effective m (.answer true item) = false := by simp [effective, hsch]
+      exact step_noop hi _ (by simp [step, hcache]) heff rfl ⟨rfl, rfl, rfl, rfl⟩ (by simp [judgeTrans, heff])
+  | some c =>
+    cases hsch : m.schema with
+    | none => rw [hcache, hsch] at hc; exact hc.elim
+    | some s =>
+      have hc' := hc
+      rw [hcache, hsch] at hc'
+      obtain ⟨h1, h2, h3, h4, h5⟩ := hc'
+      by_cases hen : enableGlobal s = true
+      · by_cases hty : itemType item = guessType s
+        · have heff : effective m (.answer true item) = true := by simp [effective, hsch, hen, hty]
+          obtain ⟨r', g', e1, e2, e3, e4, e5⟩ := inv_of_sync hi hcache hsch item (by rw [hty]; exact VS_guess h2)
+          have hg : gfcOf { st with cache := some { c with remote := some r' } } = some g' := by simp [gfcOf, e2]
+          refine ⟨{ st with cache := some { c with remote := some r' } }, ?_, ?_, ?_⟩
+          · simp only [step, hcache, h1, hen, Bool.not_true, Bool.false_eq_true, if_false, hty, ne_eq,
+              not_true_eq_false, cacheRemoteSync, bind, Except.bind]
+            rw [h1] at e1
+            rw [e1]; rfl
+          · apply e5
+            · simp [Mon.next, hsch]
+            · simp [Mon.next, heff]
+            · simp [Mon.next, heff, hsch]
+            · simp [Mon.next, heff, hsch]
+            · rfl
+            · simp [Mon.next]; exact hi.meter
+            · simp [Mon.next]; exact hi.shards
+            · simp [Mon.next]
+          · simp only [judgeTrans, heff, Bool.true_and, hsch, observe_wkind, observe_rlim, hg, Option.map_some,
+              Option.getD_some]
+            cases g' with
+            | empty l => simp only [GInv] at e4; simp [GFC.wkind, GFC.inner, e4]
+            | miw w => simp [GFC.wkind]
+            | tbw w => simp [GFC.wkind]
+        · have heff : effective m (.answer true item) = false := by simp [effective, hsch, hty]
+          exact step_noop hi _ (by simp [step, hcache, h1, hen, hty]) heff rfl ⟨rfl, rfl, rfl, rfl⟩
+            (by simp [judgeTrans, heff])
+      · have hen' : enableGlobal s = false := by simpa using hen
+        have heff : effective m (.answer true item) = false := by simp [effective, hsch, hen']
+        exact step_noop hi _ (by simp [step, hcache, h1, hen']) heff rfl ⟨rfl, rfl, rfl, rfl⟩
+          (by simp [judgeTrans, heff])
+
+theorem observe_miw {cfg : Cfg} {st : State} {w : MIW} (h : gfcOf st = some (.miw w)) :
+    (observe cfg st).wkind = 2 ∧ (observe cfg st).lastAcq = w.lastAcquireTime ∧ (observe cfg st).wreserve = w.reserve ∧
+    (observe cfg st).wmax = w.max ∧ (observe cfg st).unavail = w.unavail ∧ (observe cfg st).rlim = some w.inner := by
+  simp only [gfcOf] at h
+  simp only [observe, h]
+  exact ⟨trivial, trivial, trivial, trivial, trivial, rfl⟩
+
+theorem observe_tbw {cfg : Cfg} {st : State} {w : TBW} (h : gfcOf st = some (.tbw w)) :
+    (observe cfg st).wkind = 3 ∧ (observe cfg st).wqps = w.qps ∧ (observe cfg st).wburst = w.burst ∧
+    (observe cfg st).unavail = w.unavail ∧ (observe cfg st).rlim = some w.inner := by
+  simp only [gfcOf] at h
+  simp only [observe, h]
+  exact ⟨trivial, trivial, trivial, trivial, rfl⟩
+
+/-- the wrapper is replaced by one that satisfies the wrapper invariant for the same applied item -/
+theorem inv_of_setLimit {K : Kind} {cfg : Cfg} {st : State} {m : Mon} {c : Cache} {s : Schema} {rm : Remote}
+    {i ap : Item} {g' : GFC} {b : Bool} (r : Reply) (hi : Inv K cfg st m) (hcache : st.cache = some c)
+    (hsch : m.schema = some s) (hrm : c.remote = some rm) (q1 : rm.remoteConfig = some i)
+    (q2 : rm.appliedConfig = some ap) (q4 : itemType ap = K) (q5 : ItemLe ap m.gs)
+    (hg : GInv g' ap (obAfter m.ob m.gs g'.unavail)) (hk : g'.inner.kind = K) :
+    Inv K cfg { st with cache := some { c with remote := some { rm with fc := some g' } }, lastRet := b }
+      (m.next (.setLimit r)
+        (observe cfg { st with cache := some { c with remote := some { rm with fc := some g' } }, lastRet := b })) := by
+  have hc := hi.cache
+  unfold CInv at hc
+  rw [hcache, hsch] at hc
+  obtain ⟨h1, h2, h3, h4, h5⟩ := hc
+  have hgf : gfcOf { st with cache := some { c with remote := some { rm with fc := some g' } }, lastRet := b } = some g' := by
+    simp [gfcOf]
+  have hun : (observe cfg { st with cache := some { c with remote := some { rm with fc := some g' } }, lastRet := b }).unavail
+      = g'.unavail := by rw [observe_unavail, hgf]; rfl
+  have hob : (m.next (.setLimit r)
+      (observe cfg { st with cache := some { c with remote := some { rm with fc := some g' } }, lastRet := b })).ob
+      = obAfter m.ob m.gs g'.unavail := by
+    simp only [Mon.next, effective, Bool.false_eq_true, if_false, hun]; rfl
+  refine ⟨?_, hi.meterOK, ?_, ?_, rfl, ?_, ?_, ?_, ?_⟩
+  · simp [Mon.next]; exact hi.meter
+  · simp [Mon.next]; exact hi.shards
+  · simp [Mon.next]; exact hi.hb
+  · simp [Mon.next, effective]; exact hi.gsOK
+  · rw [hob]
+    simp only [Mon.next, effective, Bool.false_eq_true, if_false]
+    cases g'.unavail with
+    | true => exact BLe.sup_right _ _
+    | false => exact BLe.refl _
+  · intro hu
+    rw [hun] at hu
+    rw [hob, hu]
+    simp [Mon.next, effective, obAfter]
+  · simp only [CInv]
+    have e1 : (m.next (.setLimit r)
+        (observe cfg { st with cache := some { c with remote := some { rm with fc := some g' } }, lastRet := b })).schema
+        = some s := by simp [Mon.next, hsch]
+    rw [e1]
+    refine ⟨h1, h2, h3, ?_, ?_⟩
+    · simp [Mon.next, effective, h4, hrm]
+    · intro r0 hr0
+      have : r0 = { rm with fc := some g' } := by simpa using hr0.symm
+      subst this
+      rw [hob]
+      have e2 : (m.next (.setLimit r)
+          (observe cfg { st with cache := some { c with remote := some { rm with fc := some g' } }, lastRet := b })).gs
+          = m.gs := by simp [Mon.next, effective]
+      rw [e2]
+      exact ⟨i, ap, g', q1, q2, rfl, q4, q5, hg, hk⟩
+
+theorem observe_wkind0 {cfg : Cfg} {st : State} (h : gfcOf st = none) : (observe cfg st).wkind = 0 := by
+  rw [observe_wkind, h]; rfl
+
+theorem step_setLimit {K : Kind} {cfg : Cfg} {st : State} {m : Mon} (hi : Inv K cfg st m) (r : Reply) :
+    StepOK K cfg st m (.setLimit r) := by
+  have hc := hi.cache
+  unfold CInv at hc
+  have noop : gfcOf st = none → step st (.setLimit r) = .ok st → StepOK K cfg st m (.setLimit r) := by
+    intro hg hs
+    refine step_noop hi _ hs rfl rfl ⟨rfl, rfl, rfl, rfl⟩ ?_
+    simp [judgeTrans, judgeSetLimit, hi.prev, observe_wkind0 hg]
+  cases hcache : st.cache with
+  | none => exact noop (by simp [gfcOf, hcache]) (by simp [step, hcache])
+  | some c =>
+    cases hsch : m.schema with
+    | none => rw [hcache, hsch] at hc; exact hc.elim
+    | some s =>
+      rw [hcache, hsch] at hc
+      obtain ⟨h1, h2, h3, h4, h5⟩ := hc
+      cases hrm : c.remote with
+      | none => exact noop (by simp [gfcOf, hcache, hrm]) (by simp [step, hcache, hrm])
+      | some rm =>
+        obtain ⟨i, ap, g, q1, q2, q3, q4, q5, q6, q7⟩ := h5 rm hrm
+        have hgf : gfcOf st = some g := by simp [gfcOf, hcache, hrm, q3]
+        cases g with
+        | empty l =>
+          refine ⟨_, ?_, inv_of_setLimit (g' := .empty l) (b := false) r hi hcache hsch hrm q1 q2 q4 q5
+            (GInv_obAfter _ q6) q7, ?_⟩
+          · simp [step, hcache, hrm, q3, gfcSetLimit]
+          · have : (observe cfg st).wkind = 1 := by rw [observe_wkind, hgf]; rfl
+            simp [judgeTrans, judgeSetLimit, hi.prev, this]
+        | miw w =>
+          have hKm : K = .mi := by
+            obtain ⟨A, sz, a1, a2, a3, a4, a5, _⟩ := q6
+            rw [← q7]; simp [GFC.inner, a5, Lim.kind]
+          subst hKm
+          obtain ⟨w', e1, e2, e3, e4⟩ := miw_setLimit_inv h2 q6 q5 hi.gsOK st.meter.maxInflight r
+          obtain ⟨p1, p2, p3, p4, p5, p6⟩ := observe_miw (cfg := cfg) hgf
+          refine ⟨_, ?_, inv_of_setLimit (g' := .miw w') (b := false) r hi hcache hsch hrm q1 q2 q4 q5 e2 e3, ?_⟩
+          · simp [step, hcache, hrm, q3, gfcSetLimit, h1, e1, bind, Except.bind, pure, Except.pure]
+          · have hg' : gfcOf { st with cache := some { c with remote := some { rm with fc := some (.miw w') } }, lastRet := false }
+                = some (.miw w') := by simp [gfcOf]
+            obtain ⟨o1, o2, o3, o4, o5, o6⟩ := observe_miw (cfg := cfg) hg'
+            simp only [judgeTrans, judgeSetLimit, hi.prev, p1, if_true, p2, p3, p4, p5, p6, hsch, Option.bind_some,
+              hi.meter, o5, o6]
+            exact e4
+        | tbw w =>
+          have hKt : K = .tb := by
+            obtain ⟨t, q, u, a1, a2, a3, a4, a5, _⟩ := q6
+            rw [← q7]; simp [GFC.inner, a5, Lim.kind]
+          subst hKt
+          obtain ⟨w', b, e1, e2, e3, e4⟩ := tbw_setLimit_inv h2 q6 q5 hi.gsOK st.meter hi.meterOK r
+          obtain ⟨p1, p2, p3, p4, p5⟩ := observe_tbw (cfg := cfg) hgf
+          refine ⟨_, ?_, inv_of_setLimit (g' := .tbw w') (b := b) r hi hcache hsch hrm q1 q2 q4 q5 e2 e3, ?_⟩
+          · simp [step, hcache, hrm, q3, gfcSetLimit, h1, e1, bind, Except.bind, pure, Except.pure]
+          · have hg' : gfcOf { st with cache := some { c with remote := some { rm with fc := some (.tbw w') } }, lastRet := b }
+                = some (.tbw w') := by simp [gfcOf]
+            obtain ⟨o1, o2, o3, o4, o5⟩ := observe_tbw (cfg := cfg) hg'
+            simp only [judgeTrans, judgeSetLimit, hi.prev, p1, p2, p3, p4, p5, hsch, Option.bind_some,
+              hi.meter, o4, o5]
+            exact e4
+
+
+/-- every operation allowed by `OpOK` runs without panic, preserves the invariant, and the judge accepts it -/
+theorem step_inv {K : Kind} {cfg : Cfg} {st : State} {m : Mon} {op : Op} (hi : Inv K cfg st m) (hop : OpOK K op) :
+    ∃ st', step st op = .ok st' ∧ Inv K cfg st' (m.next op (observe cfg st')) ∧
+      judgeStep cfg m op (observe cfg st') = [] := by
+  have h : StepOK K cfg st m op := by
+    cases op with
+    | schema s => exact step_schema hi s hop
+    | shards n => exact step_shards hi n
+    | hb ok now other => exact step_hb hi ok now other
+    | reconcileCount => exact step_reconcile hi
+    | answer named item => exact step_answer hi named item
+    | meter x => exact step_meter hi x hop
+    | setLimit r => exact step_setLimit hi r
+  obtain ⟨st', h1, h2, h3⟩ := h
+  refine ⟨st', h1, h2, ?_⟩
+  simp only [judgeStep, judgePost_ok h2, h3, List.append_nil]
+
+/-- along every allowed operation list: no panic, one observation per operation, and the judge accepts them all -/
+theorem run_inv {K : Kind} {cfg : Cfg} : ∀ (ops : List Op) (st : State) (m : Mon), Inv K cfg st m →
+    (∀ op ∈ ops, OpOK K op) →
+    (runFrom cfg st ops).2 = none ∧ (runFrom cfg st ops).1.length = ops.length ∧
+      allGood (judgeFrom cfg m ops (runFrom cfg st ops).1) = true := by
+  intro ops
+  induction ops with
+  | nil => intro st m _ _; exact ⟨rfl, rfl, rfl⟩
+  | cons op ops ih =>
+    intro st m hi hops
+    obtain ⟨st', h1, h2, h3⟩ := step_inv hi (hops op (List.mem_cons_self ..))
+    obtain ⟨i1, i2, i3⟩ := ih st' _ h2 (fun o ho => hops o (List.mem_cons_of_mem _ ho))
+    simp only [runFrom, h1]
+    refine ⟨i1, by simp [i2], ?_⟩
+    simp only [judgeFrom, allGood, List.all_cons, h3, List.isEmpty_nil, Bool.true_and]
+    exact i3
+
+/-- the remote limiter of a reachable state is of the schema's type and within the monitor's bound -/
+theorem inv_rlim {K : Kind} {cfg : Cfg} {st : State} {m : Mon} (hi : Inv K cfg st m) {l : Lim}
+    (hl : (observe cfg st).rlim = some l) : Lim.leb l m.ob = true ∧ l.kind = K ∧ (K = .mi ∨ K = .tb) := by
+  have hc := hi.cache
+  unfold CInv at hc
+  rw [observe_rlim] at hl
+  cases hcache : st.cache with
+  | none => simp [gfcOf, hcache] at hl
+  | some c =>
+    cases hsch : m.schema with
+    | none => rw [hcache, hsch] at hc; exact hc.elim
+    | some s =>
+      rw [hcache, hsch] at hc
+      obtain ⟨h1, h2, h3, h4, h5⟩ := hc
+      cases hr : c.remote with
+      | none => simp [gfcOf, hcache, hr] at hl
+      | some r =>
+        obtain ⟨i, ap, g, r1, r2, r3, r4, r5, r6, r7⟩ := h5 r hr
+        have hg : gfcOf st = some g := by simp [gfcOf, hcache, hr, r3]
+        rw [hg] at hl
+        have : l = g.inner := by simpa using hl.symm
+        subst this
+        have hob : g.unavail = false → m.ob = m.gs := by
+          intro hu
+          apply hi.obgs
+          rw [observe_unavail, hg]; simpa using hu
+        exact ⟨GInv_leb r6 r5 r4 (VS_kind h2) hob, r7, VS_kind h2⟩
+
+theorem leb_mono {l : Lim} {a b : Bound} (h : Lim.leb l a = true) (hab : BLe a b) : Lim.leb l b = true := by
+  obtain ⟨h1, h2, h3⟩ := hab
+  cases l with
+  | exempt _ => simp [Lim.leb] at h
+  | mi s => simp only [Lim.leb, Bool.and_eq_true, decide_eq_true_eq] at h ⊢; omega
+  | tb q u => simp only [Lim.leb, Bool.and_eq_true, decide_eq_true_eq] at h ⊢; omega
+
+theorem BLe.sup_le {a b G : Bound} (ha : BLe a G) (hb : BLe b G) : BLe (a.sup b) G := by
+  obtain ⟨a1, a2, a3⟩ := ha
+  obtain ⟨b1, b2, b3⟩ := hb
+  simp only [BLe, Bound.sup]
+  refine ⟨?_, ?_, ?_⟩ <;> (split <;> omega)
+
+/-- the monitor's bounds never exceed an upper bound `G` of every configured global limit -/
+structure MonLe (m : Mon) (G : Bound) : Prop where
+  gs : BLe m.gs G
+  ob : BLe m.ob G
+  sch : ∀ s, m.schema = some s → BLe (globalOf s) G
+
+theorem monLe_next {m : Mon} {G : Bound} (h : MonLe m G) (op : Op) (o : Obs)
+    (hop : ∀ s, op = .schema s → BLe (globalOf s) G) : MonLe (m.next op o) G := by
+  have hgs : BLe (m.next op o).gs G := by
+    simp only [Mon.next]
+    split
+    · cases hs : m.schema with
+      | none => exact h.gs
+      | some s => exact h.sch s hs
+    · exact h.gs
+  refine ⟨hgs, ?_, ?_⟩
+  · have : (m.next op o).ob = if o.unavail then m.ob.sup (m.next op o).gs else (m.next op o).gs := rfl
+    rw [this]
+    split
+    · exact BLe.sup_le h.ob hgs
+    · exact hgs
+  · intro s hs
+    cases op with
+    | schema s' =>
+      have : s = s' := by simpa [Mon.next] using hs.symm
+      subst this
+      exact hop s rfl
+    | shards _ => exact h.sch s hs
+    | hb _ _ _ => exact h.sch s hs
+    | reconcileCount => exact h.sch s hs
+    | answer _ _ => exact h.sch s hs
+    | meter _ => exact h.sch s hs
+    | setLimit _ => exact h.sch s hs
+
+/-- along every allowed operation list whose schemas' global limits are all within `G`, every remote limiter ever
+    observed (handed out or not) has the schema's type and is within `G` -/
+theorem run_cap {K : Kind} {cfg : Cfg} {G : Bound} : ∀ (ops : List Op) (st : State) (m : Mon), Inv K cfg st m →
+    MonLe m G → (∀ op ∈ ops, OpOK K op ∧ ∀ s, op = .schema s → BLe (globalOf s) G) →
+    ∀ o ∈ (runFrom cfg st ops).1, ∀ l, o.rlim = some l → Lim.leb l G = true ∧ l.kind = K := by
+  intro ops
+  induction ops with
+  | nil => intro st m _ _ _ o ho; simp [runFrom] at ho
+  | cons op ops ih =>
+    intro st m hi hm hops o ho l hl
+    obtain ⟨st', h1, h2, _⟩ := step_inv hi (hops op (List.mem_cons_self ..)).1
+    have hm' := monLe_next hm op (observe cfg st') (hops op (List.mem_cons_self ..)).2
+    simp only [runFrom, h1, List.mem_cons] at ho
+    rcases ho with rfl | ho
+    · obtain ⟨a1, a2, _⟩ := inv_rlim h2 hl
+      exact ⟨leb_mono a1 hm'.ob, a2⟩
+    · exact ih st' _ h2 hm' (fun x hx => hops x (List.mem_cons_of_mem _ hx)) o ho l hl
+
+
+/-- every allowed operation list runs to a state that satisfies the invariant (for some monitor) -/
+theorem exec_inv {K : Kind} {cfg : Cfg} {G : Bound} : ∀ (ops : List Op) (st : State) (m : Mon), Inv K cfg st m →
+    MonLe m G → (∀ op ∈ ops, OpOK K op ∧ ∀ s, op = .schema s → BLe (globalOf s) G) →
+    ∃ st' m', exec st ops = some st' ∧ Inv K cfg st' m' ∧ MonLe m' G := by
+  intro ops
+  induction ops with
+  | nil => intro st m hi hm _; exact ⟨st, m, rfl, hi, hm⟩
+  | cons op ops ih =>
+    intro st m hi hm hops
+    obtain ⟨st', h1, h2, _⟩ := step_inv hi (hops op (List.mem_cons_self ..)).1
+    have hm' := monLe_next hm op (observe cfg st') (hops op (List.mem_cons_self ..)).2
+    obtain ⟨st'', m'', e1, e2, e3⟩ := ih st' _ h2 hm' (fun x hx => hops x (List.mem_cons_of_mem _ hx))
+    exact ⟨st'', m'', by simp only [exec, h1]; exact e1, e2, e3⟩
+
+/-- in a reachable state the local limiter enforces exactly the local limit of the schema in force -/
+theorem inv_local {K : Kind} {cfg : Cfg} {st : State} {m : Mon} (hi : Inv K cfg st m) {c : Cache}
+    (hc : st.cache = some c) : VS K c.loc.config ∧ c.loc.fc = some (limOf c.loc.config) := by
+  have h := hi.cache
+  unfold CInv at h
+  rw [hc] at h
+  cases hsch : m.schema with
+  | none => rw [hsch] at h; exact h.elim
+  | some s =>
+    rw [hsch] at h
+    obtain ⟨h1, h2, h3, _⟩ := h
+    rw [h1]; exact ⟨h2, h3⟩
 
 end KG.Lemmas.RemoteLimiter
